@@ -24,6 +24,7 @@ const smtPrelude = `(set-option :produce-models true)
 (declare-datatypes ((Slc 0)) (((mk-slc (s-arr Int) (s-off Int) (s-len Int) (s-cap Int)))))
 (declare-datatypes ((Ifc 0)) (((mk-ifc (i-tag Int) (i-val Int)))))
 (declare-fun brank ((Array Int Int) Int Int) Real)
+(assert (forall ((c (Array Int Int)) (o Int) (l Int)) (! (and (>= (brank c o l) 0.0) (=> (<= l 0) (= (brank c o l) 0.0)) (=> (> l 0) (> (brank c o l) 0.0))) :pattern ((brank c o l)))))
 (declare-fun seedI (Int) Bool)
 (declare-fun seedR (Real) Bool)
 (declare-fun seedB (Bool) Bool)
